@@ -198,11 +198,24 @@ pub fn kvs_linearizability(seed: u64, worker: usize, slot: &Slot) {
                             kvs.write(wb).unwrap_or_else(|e| violation("write-error", format!("{e}")));
                             LOp::Write(ws)
                         }
-                        6..=7 => {
+                        6 => {
                             let k = rng.usize_below(nkeys);
                             let mut t = false;
                             let v = kvs.load(&key(k), &mut t).unwrap_or_else(|e| violation("load-error", format!("{e}")));
                             LOp::Get(k, v.as_deref().map(value_id))
+                        }
+                        7 => {
+                            // the same read through a scan cursor positioned with seek()
+                            let k = rng.usize_below(nkeys);
+                            let lo: Bound<Vec<u8>> = Bound::Unbounded;
+                            let hi: Bound<Vec<u8>> = Bound::Unbounded;
+                            let mut c = kvs.range_scan(&lo, &hi).unwrap_or_else(|e| violation("scan-error", format!("{e}")));
+                            c.seek(&key(k)).unwrap_or_else(|e| violation("seek-error", format!("{e}")));
+                            let v = match c.key_value() {
+                                Some(kv) if kv.key == key(k).as_slice() => kv.value.map(value_id),
+                                _ => None,
+                            };
+                            LOp::Get(k, v)
                         }
                         _ => {
                             let s = scan_all(&kvs, nkeys).unwrap_or_else(|e| violation("scan-error", e));
@@ -222,11 +235,25 @@ pub fn kvs_linearizability(seed: u64, worker: usize, slot: &Slot) {
                             kvs.del(&key(k)).unwrap_or_else(|e| violation("del-error", format!("{e}")));
                             LOp::Write(vec![(k, None)])
                         }
-                        _ => {
+                        6..=7 => {
                             let k = rng.usize_below(nkeys);
                             let mut t = false;
                             let v = kvs.load(&key(k), &mut t).unwrap_or_else(|e| violation("load-error", format!("{e}")));
                             LOp::Get(k, v.as_deref().map(value_id))
+                        }
+                        _ => {
+                            // the same read through a scan cursor positioned with seek(): this is
+                            // the workload with deletes, so the key sought may carry a tombstone
+                            let k = rng.usize_below(nkeys);
+                            let lo: Bound<Vec<u8>> = Bound::Unbounded;
+                            let hi: Bound<Vec<u8>> = Bound::Unbounded;
+                            let mut c = kvs.range_scan(&lo, &hi).unwrap_or_else(|e| violation("scan-error", format!("{e}")));
+                            c.seek(&key(k)).unwrap_or_else(|e| violation("seek-error", format!("{e}")));
+                            let v = match c.key_value() {
+                                Some(kv) if kv.key == key(k).as_slice() => kv.value.map(value_id),
+                                _ => None,
+                            };
+                            LOp::Get(k, v)
                         }
                     }
                 };
